@@ -269,6 +269,12 @@ pub fn run_history(file: &[u8], ops: &[(usize, Op)], with_fp: bool) -> Result<Ve
         }
         if let Op::Clone(newid) = op {
             let c = cursors[*cid].as_ref().unwrap().clone();
+            if lines.len() % 2 == 0 {
+                // a clone is a value copy: the original may be dropped (here: replaced by a second clone
+                // of itself) without the clones noticing
+                let c2 = c.clone();
+                cursors[*cid] = Some(c2);
+            }
             while cursors.len() <= *newid {
                 cursors.push(None);
             }
@@ -378,10 +384,47 @@ pub fn gen_history(rng: &mut Rng, es: &[(Vec<u8>, Vec<u8>)], len: usize, style: 
                 }
             }
         }
+        // C17: clone-heavy histories: position, clone, move the original far away (its blocks are
+        // released), read through the clone, and so on
+        3 => {
+            while ops.len() < len {
+                let cid = rng.below(ncur as u64) as usize;
+                ops.push((cid, match rng.below(5) { 0 => Op::First, 1 => Op::Last, 2 => Op::Ge(q(rng)), 3 => Op::Le(q(rng)), _ => Op::Next }));
+                if ncur < 6 {
+                    ops.push((cid, Op::Clone(ncur)));
+                    let cl = ncur;
+                    ncur += 1;
+                    ops.push((cid, match rng.below(4) { 0 => Op::First, 1 => Op::Last, 2 => Op::Reset, _ => Op::Ge(q(rng)) }));
+                    ops.push((cl, Op::Current));
+                    for _ in 0..rng.range(1, 5) {
+                        ops.push((cl, if rng.chance(1, 2) { Op::Next } else { Op::Prev }));
+                    }
+                    ops.push((cid, Op::Current));
+                } else {
+                    ops.push((cid, Op::Current));
+                    for _ in 0..rng.range(1, 8) {
+                        ops.push((cid, if rng.chance(1, 2) { Op::Next } else { Op::Prev }));
+                    }
+                }
+            }
+        }
         // C03: random histories; runs of relative moves followed by absolute moves (the D2 shape)
         _ => {
             while ops.len() < len {
                 let cid = rng.below(ncur as u64) as usize;
+                if rng.chance(1, 12) && !es.is_empty() {
+                    // an absolute seek that finds nothing, an exact seek onto a stored key (often the last of
+                    // its block), then a walk across the block boundary
+                    let k = es[rng.below(es.len() as u64) as usize].0.clone();
+                    ops.push((cid, match rng.below(3) { 0 => Op::Ge(k.clone()), 1 => Op::First, _ => Op::Last }));
+                    ops.push((cid, match rng.below(3) { 0 => Op::Ge(vec![0xff; 40]), 1 => Op::Eq(vec![0xff; 40]), _ => Op::Ge(vec![0xff; 3]) }));
+                    ops.push((cid, match rng.below(4) { 0 => Op::Ge(k), 1 => Op::Le(k), _ => Op::Eq(k) }));
+                    let fwd = rng.chance(2, 3);
+                    for _ in 0..rng.range(1, 10) {
+                        ops.push((cid, if fwd { Op::Next } else { Op::Prev }));
+                    }
+                    continue;
+                }
                 match rng.below(20) {
                     0..=6 => {
                         let run = rng.range(1, 14);
@@ -517,6 +560,7 @@ pub fn generate<W: Write>(c: &mut Cases<W>, rng: &mut Rng, thorough: bool, which
         ("C03", false) => 160, ("C03", true) => 3000,
         ("C16", false) => 100, ("C16", true) => 1500,
         ("C10", false) => 80, ("C10", true) => 1200,
+        ("C17", false) => 60, ("C17", true) => 1500,
         _ => 100,
     };
     // regression corpus first: the D2 replay (index_levels 2, history first; GE(k1); next x11; GE(k1))
@@ -601,8 +645,8 @@ pub fn generate<W: Write>(c: &mut Cases<W>, rng: &mut Rng, thorough: bool, which
             _ => continue,
         };
         deep_files += multi_block_levels(&file, cfg.levels) as u64;
-        let style = if which == "C02" { 0 } else if which == "C03" && i % 4 == 1 { 2 } else { 1 };
-        let hlen = match which { "C02" => 40, "C03" => if style == 2 { 160 } else { 70 }, "C16" => 50, _ => 40 };
+        let style = if which == "C02" { 0 } else if which == "C03" && i % 4 == 1 { 2 } else if which == "C17" && i % 3 != 2 { 3 } else { 1 };
+        let hlen = match which { "C02" => 40, "C03" => if style == 2 { 160 } else { 70 }, "C16" => 50, "C17" => 60, _ => 40 };
         let ops = gen_history(rng, &es, hlen, style);
         if which == "C10" {
             let v1 = to_v1(&file);
@@ -643,6 +687,24 @@ fn bound_str(b: &Bound<Vec<u8>>) -> String {
     }
 }
 
+/// collects an iterator; with `$clone_after = Some(n)` the iterator is replaced by a clone of itself
+/// (and the original dropped) after n calls of next: a clone is a value copy and continues identically
+macro_rules! run_iter {
+    ($it:expr, $clone_after:expr) => {{
+        let mut it = $it;
+        let ca: Option<usize> = $clone_after;
+        let mut n = 0usize;
+        collect_iter(|| {
+            if Some(n) == ca {
+                let it2 = it.clone();
+                it = it2;
+            }
+            n += 1;
+            it.next().map(|o| o.map(|(k, v)| (k.to_vec(), v.to_vec()))).map_err(|e| err_class(&e))
+        })
+    }};
+}
+
 fn collect_iter(mut next: impl FnMut() -> Result<Option<(Vec<u8>, Vec<u8>)>, String>) -> String {
     let r = catch(|| -> Result<Vec<(Vec<u8>, Vec<u8>)>, String> {
         let mut out = Vec::new();
@@ -675,14 +737,19 @@ pub fn generate_iter<W: Write>(c: &mut Cases<W>, rng: &mut Rng, thorough: bool, 
         if cfg.levels > 8 {
             cfg.levels = (cfg.levels % 5) + 1;
         }
-        if which == "C16" && i % 8 == 7 {
-            cfg.levels = 0;
-        }
         let mut es = bounded_entries(rng, &cfg, 250, if deep { 5000 } else { 25000 });
         if i < 2 {
             // the deepest index trees the format allows
             cfg = FileCfg { codec: CompressionType::None, level: 0, block_size: 64, unclamped: true, interval: Some(2), levels: 254 + i as u8 };
             es = (0..9u32).map(|x| (vec![x as u8, 1], vec![x as u8; 30])).collect();
+        }
+        if (2..8).contains(&i) {
+            // every codec: a data block of 150 kB that compresses more than tenfold (longer than any
+            // internal chunk of the codecs' framing) between small entries
+            cfg = FileCfg { codec: CODECS[i % 6], level: [1u32, 6, 3][i % 3], block_size: 2048, unclamped: false, interval: None, levels: (i % 2) as u8 };
+            let big: Vec<u8> = (0..150_000usize).map(|x| (x % 13) as u8).collect();
+            es = vec![(vec![1u8, 0], vec![5u8; 10]), (vec![1u8, 1], big), (vec![1u8, 2], vec![6u8; 10]), (vec![2u8], vec![7u8; 3])];
+            c.bump("files.big_compressible_block", 1);
         }
         let file = match write_file(&cfg, &es) {
             WriteOutcome::File(f) => f,
@@ -708,12 +775,14 @@ pub fn generate_iter<W: Write>(c: &mut Cases<W>, rng: &mut Rng, thorough: bool, 
                 let lo = mk(rng, (j % 3) as u64, a);
                 let hi = mk(rng, ((j / 3) % 3) as u64, b);
                 let rev = rng.chance(1, 2);
+                let clone_after = if j % 2 == 1 { Some(rng.below(7) as usize) } else { None };
+                if clone_after.is_some() {
+                    c.bump("iter.cloned_midway", 1);
+                }
                 let res = if rev {
-                    let mut it = Reader::new(mk_src(&file)).unwrap().into_rev_range_iter((lo.clone(), hi.clone())).unwrap();
-                    collect_iter(|| it.next().map(|o| o.map(|(k, v)| (k.to_vec(), v.to_vec()))).map_err(|e| err_class(&e)))
+                    run_iter!(Reader::new(mk_src(&file)).unwrap().into_rev_range_iter((lo.clone(), hi.clone())).unwrap(), clone_after)
                 } else {
-                    let mut it = Reader::new(mk_src(&file)).unwrap().into_range_iter((lo.clone(), hi.clone())).unwrap();
-                    collect_iter(|| it.next().map(|o| o.map(|(k, v)| (k.to_vec(), v.to_vec()))).map_err(|e| err_class(&e)))
+                    run_iter!(Reader::new(mk_src(&file)).unwrap().into_range_iter((lo.clone(), hi.clone())).unwrap(), clone_after)
                 };
                 let l = format!("q range {} {} {} = {}", bound_str(&lo), bound_str(&hi), if rev { "rev" } else { "fwd" }, res);
                 h ^= fnv(l.as_bytes());
@@ -734,12 +803,14 @@ pub fn generate_iter<W: Write>(c: &mut Cases<W>, rng: &mut Rng, thorough: bool, 
                     _ => pick(rng),
                 };
                 let rev = rng.chance(1, 2);
+                let clone_after = if j % 2 == 1 { Some(rng.below(7) as usize) } else { None };
+                if clone_after.is_some() {
+                    c.bump("iter.cloned_midway", 1);
+                }
                 let res = if rev {
-                    let mut it = Reader::new(mk_src(&file)).unwrap().into_rev_prefix_iter(p.clone()).unwrap();
-                    collect_iter(|| it.next().map(|o| o.map(|(k, v)| (k.to_vec(), v.to_vec()))).map_err(|e| err_class(&e)))
+                    run_iter!(Reader::new(mk_src(&file)).unwrap().into_rev_prefix_iter(p.clone()).unwrap(), clone_after)
                 } else {
-                    let mut it = Reader::new(mk_src(&file)).unwrap().into_prefix_iter(p.clone()).unwrap();
-                    collect_iter(|| it.next().map(|o| o.map(|(k, v)| (k.to_vec(), v.to_vec()))).map_err(|e| err_class(&e)))
+                    run_iter!(Reader::new(mk_src(&file)).unwrap().into_prefix_iter(p.clone()).unwrap(), clone_after)
                 };
                 let l = format!("q prefix {} {} = {}", hex(&p), if rev { "rev" } else { "fwd" }, res);
                 h ^= fnv(l.as_bytes());
